@@ -236,6 +236,9 @@ def structured_matrix(draw, p_max):
                 if w == 0:
                     w = Fraction(-1)
                 W[j][i] = w
+    if draw(st.integers(0, 5)) == 0 and len(W) <= 8:
+        W = draw(S.embedded_wide(W))
+        W = [[Fraction(x) for x in row] for row in W]
     integral = all(x.denominator == 1 for row in W for x in row)
     dtype = draw(st.sampled_from(["int", "float"])) if integral else "float"
     from harness.core import fstr
